@@ -37,6 +37,7 @@ import (
 	"net"
 	"net/http"
 	"runtime"
+	"runtime/debug"
 	"sort"
 	"strings"
 	"sync"
@@ -315,6 +316,21 @@ func (o *vfC15Outbound) sink(addr string) *vfC15UDPSink {
 	return o.sinks[addr]
 }
 
+// vfC15Par runs the functions concurrently and returns when all have finished. Channels, not
+// sync.WaitGroup: inside a bubble WaitGroup.Wait was seen not to count as durably blocked (HARNESS_GUIDE).
+func vfC15Par(fs ...func()) {
+	done := make(chan struct{}, len(fs))
+	for _, f := range fs {
+		go func() {
+			defer func() { done <- struct{}{} }()
+			f()
+		}()
+	}
+	for range fs {
+		<-done
+	}
+}
+
 // ---------------------------------------------------------------- the recording pass-through
 
 type vfC15RecEv struct {
@@ -341,6 +357,11 @@ type vfC15Rec struct {
 	reports   map[string]int
 	refused   map[string]int
 	evs       []vfC15RecEv
+
+	// delay, when set, makes LogOnlineState slow: the call sleeps (virtual time) before it is recorded
+	// and forwarded, as a contended or remote logger would. The balance is therefore the balance of
+	// DELIVERED events. No lock is held while sleeping.
+	delay func(id string, online bool) time.Duration
 }
 
 func vfC15NewRec(inner TrafficStatsServer) *vfC15Rec {
@@ -364,6 +385,11 @@ func (r *vfC15Rec) LogTraffic(id string, tx, rx uint64) bool {
 }
 
 func (r *vfC15Rec) LogOnlineState(id string, online bool) {
+	if r.delay != nil {
+		if d := r.delay(id, online); d > 0 {
+			time.Sleep(d)
+		}
+	}
 	r.mu.Lock()
 	e := vfC15RecEv{T: time.Now().UnixNano(), Kind: "offline", ID: id}
 	if online {
@@ -420,7 +446,9 @@ type vfC15Raw struct {
 	dgs  atomic.Int64
 }
 
-type vfC15Factory struct{ f func() (net.PacketConn, error) }
+type vfC15Factory struct {
+	f func() (net.PacketConn, error)
+}
 
 func (f *vfC15Factory) New(net.Addr) (net.PacketConn, error) { return f.f() }
 
@@ -495,13 +523,13 @@ type vfC15Xfer struct {
 }
 
 type vfC15Step struct {
-	Op      string         `json:"op"` // connect | traffic | reauth | kick | kick_reconnect | kick_offline | close | vanish | server_close
-	Conn    int            `json:"conn,omitempty"`
-	Conns   []int          `json:"conns,omitempty"`
-	Arg     string         `json:"arg,omitempty"`
+	Op      string      `json:"op"` // connect | traffic | reauth | kick | kick_reconnect | kick_offline | close | vanish | server_close
+	Conn    int         `json:"conn,omitempty"`
+	Conns   []int       `json:"conns,omitempty"`
+	Arg     string      `json:"arg,omitempty"`
 	Traffic []vfC15Xfer `json:"traffic,omitempty"`
-	Probe   int            `json:"probe,omitempty"` // kick: another live connection of the same user (0 = none)
-	New     []int          `json:"new,omitempty"`   // kick_reconnect / kick_offline: the two connections made afterwards
+	Probe   int         `json:"probe,omitempty"` // kick: another live connection of the same user (0 = none)
+	New     []int       `json:"new,omitempty"`   // kick_reconnect / kick_offline: the two connections made afterwards
 }
 
 type vfC15CensusCase struct {
@@ -647,18 +675,16 @@ func (w *vfC15World) connect(p vfC15ConnPlan) *vfC15Conn {
 			}
 		}
 		res := make([]int, n)
-		var wg sync.WaitGroup
+		var fs []func()
 		for i := 0; i < n; i++ {
-			wg.Add(1)
-			go func(i int) {
-				defer wg.Done()
+			fs = append(fs, func() {
 				st, err := raw.authReq("ok:" + p.User)
 				if err == nil {
 					res[i] = st
 				}
-			}(i)
+			})
 		}
-		wg.Wait()
+		vfC15Par(fs...)
 		for _, st := range res {
 			if st == 233 {
 				c.authed = true
@@ -943,16 +969,15 @@ func (w *vfC15World) kickReconnect(st vfC15Step, label string) {
 		w.t.Fatalf("harness: %v", err)
 	}
 	w.k.Count("ev_"+st.Op, 1)
-	var wg sync.WaitGroup
+	var fs []func()
 	for _, kx := range st.Conns {
 		c := w.conns[kx]
-		wg.Add(1)
-		go func() { defer wg.Done(); w.closeConn(c) }()
+		fs = append(fs, func() { w.closeConn(c) })
 		if c.ended == "" {
 			c.ended = "closed"
 		}
 	}
-	wg.Wait()
+	vfC15Par(fs...)
 	w.settle(1 * time.Second)
 	if rep1, _ := w.rec.counts(u); rep1 != rep0 {
 		w.k.Inconclusive(fmt.Sprintf("%s: user %s reported traffic between the kick and the disconnects", label, u))
@@ -1090,10 +1115,9 @@ func (w *vfC15World) step(i int, st vfC15Step) {
 	w.rec.mark(label)
 	// a poller hits the real handler while the step runs (virtual 5 ms period)
 	stop := make(chan struct{})
-	var pwg sync.WaitGroup
-	pwg.Add(1)
+	pdone := make(chan struct{})
 	go func() {
-		defer pwg.Done()
+		defer close(pdone)
 		for {
 			select {
 			case <-stop:
@@ -1113,12 +1137,11 @@ func (w *vfC15World) step(i int, st vfC15Step) {
 	case "connect":
 		w.connect(w.c.Conns[st.Conn-1])
 	case "traffic":
-		var wg sync.WaitGroup
+		var fs []func()
 		for _, tr := range st.Traffic {
-			wg.Add(1)
-			go func() { defer wg.Done(); w.traffic(tr) }()
+			fs = append(fs, func() { w.traffic(tr) })
 		}
-		wg.Wait()
+		vfC15Par(fs...)
 	case "reauth":
 		w.reauth(w.conns[st.Conn], st.Arg)
 	case "kick":
@@ -1126,16 +1149,15 @@ func (w *vfC15World) step(i int, st vfC15Step) {
 	case "kick_reconnect", "kick_offline":
 		w.kickReconnect(st, label)
 	case "close":
-		var wg sync.WaitGroup
+		var fs []func()
 		for _, k := range st.Conns {
 			c := w.conns[k]
-			wg.Add(1)
-			go func() { defer wg.Done(); w.closeConn(c) }()
+			fs = append(fs, func() { w.closeConn(c) })
 			if c.ended == "" {
 				c.ended = "closed"
 			}
 		}
-		wg.Wait()
+		vfC15Par(fs...)
 	case "vanish":
 		c := w.conns[st.Conn]
 		w.router.Blackhole(c.addr)
@@ -1151,7 +1173,7 @@ func (w *vfC15World) step(i int, st vfC15Step) {
 		}
 	}
 	close(stop)
-	pwg.Wait()
+	<-pdone
 	w.settle(settle)
 	w.census(label)
 }
@@ -1176,8 +1198,9 @@ func (w *vfC15World) closeConn(c *vfC15Conn) {
 	}
 }
 
-func vfC15CensusRun(t *testing.T, k *vfKit, c vfC15CensusCase) {
-	synctest.Test(t, func(t *testing.T) {
+// vfC15NewWorld starts the real server with the real stats server behind the recorder. In a bubble.
+func vfC15NewWorld(t *testing.T, k *vfKit, c vfC15CensusCase) *vfC15World {
+	{
 		w := &vfC15World{t: t, k: k, c: c, conns: map[int]*vfC15Conn{}, cl: vfC15NewSums(), rnd: k.Rand(c.CaseID + "/run")}
 		w.router = &vfC15Router{nodes: map[string]simnet.PacketReceiver{}, blackhole: map[string]bool{}, latency: time.Duration(c.LatencyMs) * time.Millisecond}
 		w.stats = NewTrafficStatsServer(vfC15Secret)
@@ -1207,15 +1230,21 @@ func vfC15CensusRun(t *testing.T, k *vfKit, c vfC15CensusCase) {
 		w.srv = s
 		w.sdone = make(chan struct{})
 		go func() { _ = s.Serve(); close(w.sdone) }()
+		return w
+	}
+}
+
+func vfC15CensusRun(t *testing.T, k *vfKit, c vfC15CensusCase) {
+	synctest.Test(t, func(t *testing.T) {
+		w := vfC15NewWorld(t, k, c)
 
 		// initial connections: all at once
-		var wg sync.WaitGroup
+		var fs []func()
 		for _, kx := range c.Initial {
 			p := c.Conns[kx-1]
-			wg.Add(1)
-			go func() { defer wg.Done(); w.connect(p) }()
+			fs = append(fs, func() { w.connect(p) })
 		}
-		wg.Wait()
+		vfC15Par(fs...)
 		w.settle(1 * time.Second)
 		w.census(c.CaseID + " after initial connects")
 		serverClosed := false
@@ -1316,8 +1345,8 @@ func vfC15CensusGen(k *vfKit, caseID string) vfC15CensusCase {
 		c.Users = append(c.Users, fmt.Sprintf("%s-user%d", caseID, i+1))
 	}
 	nc := 7 + r.Intn(3)
-	live := map[int]bool{}   // authenticated and connected
-	open := map[int]bool{}   // has a client object that can be closed
+	live := map[int]bool{} // authenticated and connected
+	open := map[int]bool{} // has a client object that can be closed
 	for i := 1; i <= nc; i++ {
 		p := vfC15ConnPlan{K: i, User: c.Users[r.Intn(nu)]}
 		if i <= 2 {
@@ -1521,8 +1550,11 @@ func TestVerifC15Census(t *testing.T) {
 	k := vfNewKit(t, "C15", "c15-census")
 	defer k.Finish()
 	vfC15TLSCert() // outside the bubbles
+	// go1.25.0: collect between bubbles only (a GC cycle while a bubble is alive can freeze it)
+	defer debug.SetGCPercent(debug.SetGCPercent(-1))
 	n := k.N(4, 38)
 	for i := 0; i < n; i++ {
+		runtime.GC()
 		caseID := fmt.Sprintf("census-%d", i)
 		if rc := k.ReplayCase(); rc != "" && rc != caseID {
 			continue
